@@ -102,6 +102,11 @@ class X:
         honest = raw
         if t.get("build") is not None:
             honest = t["build"](self, raw)
+        if self.dev[0] == "z":
+            if not pk.zactive():        # compression not switched on yet: wait for a later matching message
+                return None
+            self._zarm(pk, honest)
+            return [honest]
         edited = CF.apply_deviation(self.dev, honest, t["spec"], core.filler(64, 38))
         self.fired = (honest, edited)
         if edited == b"":
@@ -109,13 +114,26 @@ class X:
             return [b"\x02"]
         return [edited]
 
+    def _zarm(self, pk, honest):
+        """The honest message goes out, but what travels in place of its compressed payload deviates."""
+        self.fired = (honest, b"")
+
+        def sent(comp, edited):
+            self.fired = (honest, edited)
+        pk.zedit = (self.dev[1], sent)
+
     def at(self, point):
         t = self.tpl
         if t is None or t["mode"] != "inject" or t["point"] != point or self.fired is not None:
             return
         honest = t["build"](self, None)
         edited = CF.apply_deviation(self.dev, honest, t["spec"], core.filler(64, 38))
-        self.fired = (honest, edited)
+        if self.dev[0] == "z":
+            if not self.peer.packetizer.zactive():
+                return
+            self._zarm(self.peer.packetizer, honest)
+        else:
+            self.fired = (honest, edited)
         try:
             CF.send_raw(self.peer, edited)
         except (EOFError, OSError):
@@ -290,6 +308,17 @@ KB = {"ed25519": ("str", ["text", "str"]), "ecdsa-256": ("str", ["text", "text",
       "rsa": ("str", ["text", "mpint", "mpint"])}
 SIG = ("str", ["text", "str"])
 CHREQ = ["int", "text", "bool"]
+
+
+ZTEMPLATES = {
+    "zlib": {C: ["EXT_INFO", "SERVICE_ACCEPT", "USERAUTH_SUCCESS", "REQUEST_SUCCESS/port", "OPEN_CONFIRMATION",
+                 "CHANNEL_DATA", "CHANNEL_CLOSE", "IGNORE"],
+             S: ["SERVICE_REQUEST", "USERAUTH_REQUEST/password", "GLOBAL_REQUEST/tcpip-forward", "CHANNEL_OPEN/session",
+                 "CHANNEL_REQUEST/pty-req", "CHANNEL_DATA", "CHANNEL_CLOSE", "IGNORE"]},
+    "zlib@openssh.com": {C: ["REQUEST_SUCCESS/port", "OPEN_CONFIRMATION", "CHANNEL_DATA", "CHANNEL_CLOSE", "IGNORE"],
+                         S: ["GLOBAL_REQUEST/tcpip-forward", "CHANNEL_OPEN/session", "CHANNEL_DATA", "CHANNEL_CLOSE",
+                             "IGNORE"]},
+}
 
 
 def templates():
@@ -521,6 +550,47 @@ def templates():
     t.append(rep("CHANNEL_EXTENDED_DATA", "chan-io", C, 95, ["int", "int", "str"], **io))
     t.append(inj("CHANNEL_EXTENDED_DATA/from-client", "chan-io", S, "chan-open",
                  lambda x, r: mk(95, ("int", cid(x)), ("int", 1), ("str", b"err")), ["int", "int", "str"], **io))
+    # --- a value stored from an earlier message is consumed later: EXT_INFO x authentication method that follows
+    for nm, acfg in [("publickey-rsa", {"auth": "publickey", "userkey": "rsa"}), ("publickey-ecdsa", {"auth": "publickey"}),
+                     ("keyboard-interactive", {"auth": "kbdint"}), ("none", {"auth": "none"})]:
+        t.append(rep("EXT_INFO/then-" + nm, "ext-info", C, 7, ["int", "text", "list"], cfg=acfg, **hs))
+    # --- userauth-layer messages nobody asked for: between two attempts (after a rejected one) and after success
+    ma = dict(cfg={"auth": "password-fail"}, until="auth")
+    UR_ = (("str", b"alice"), ("str", b"ssh-connection"))
+    unsolicited = {
+        C: [("SERVICE_ACCEPT", lambda x, r: mk(6, ("str", b"ssh-userauth")), ["text"]),
+            ("USERAUTH_SUCCESS", lambda x, r: mk(52), []),
+            ("USERAUTH_FAILURE", lambda x, r: mk(51, ("str", b"password"), ("bool", False)), ["list", "bool"]),
+            ("USERAUTH_BANNER", lambda x, r: mk(53, ("str", b"hi"), ("str", b"en")), ["str", "str"]),
+            ("USERAUTH_INFO_REQUEST", lambda x, r: mk(60, ("str", b"t"), ("str", b"i"), ("str", b""), ("int", 1),
+                                                      ("str", b"P:"), ("bool", False)),
+             ["text", "text", "str", "int", "text", "bool"]),
+            ("EXT_INFO", lambda x, r: mk(7, ("int", 1), ("str", b"server-sig-algs"), ("str", b"ssh-ed25519")),
+             ["int", "text", "str"])],
+        S: [("SERVICE_REQUEST", lambda x, r: mk(5, ("str", b"ssh-userauth")), ["text"]),
+            ("USERAUTH_REQUEST/none", lambda x, r: mk(50, *UR_, ("str", b"none")), UR),
+            ("USERAUTH_REQUEST/password", lambda x, r: mk(50, *UR_, ("str", b"password"), ("bool", False),
+                                                          ("str", b"pw")), UR + ["bool", "str"]),
+            ("USERAUTH_REQUEST/publickey-query",
+             lambda x, r: mk(50, *UR_, ("str", b"publickey"), ("bool", False), ("str", b"ssh-ed25519"),
+                             ("str", F.key("ed25519").asbytes())), UR + ["bool", "text", KB["ed25519"]]),
+            ("USERAUTH_INFO_RESPONSE", lambda x, r: mk(61, ("int", 1), ("str", b"pw")), ["int", "text"])],
+    }
+    have = {(d["role"], d["name"]) for d in t}
+    for role in (C, S):
+        for nm, build, spec in unsolicited[role]:
+            for point, kw in (("mid-auth", ma), ("post-auth", g)):
+                if (role, "%s/%s" % (nm, point)) not in have:
+                    t.append(inj("%s/%s" % (nm, point), "auth-unsolicited", role, point, build, spec, **kw))
+    # --- compression negotiated: the deviation sits in the compressed form of an otherwise honest message
+    # (zlib is active from NEWKEYS on, zlib@openssh.com from USERAUTH_SUCCESS on)
+    for algo, names in ZTEMPLATES.items():
+        for role in (C, S):
+            for nm in names[role]:
+                base = [d for d in t if d["role"] == role and d["name"] == nm]
+                assert len(base) == 1, (role, nm)
+                d = dict(base[0], name="%s/%s" % (nm, algo), cfg=dict(base[0]["cfg"], compress=algo), devs="z", sweep=False)
+                t.append(d)
     # DISCONNECT/DEBUG in the plaintext phase: replace the peer's kex message by it
     out = []
     for d in t:
@@ -570,7 +640,10 @@ def execute(tpl, dev, role=None, banner=None, probe_cfg=None):
                    client_kw=ckw)
         if kex and "group-exchange" in kex:
             p.ts._modulus_pack = CF.modulus_pack()
+        hold["p"] = p
         for t in (p.tc, p.ts):
+            if cfg.get("compress"):
+                t._preferred_compression = (cfg["compress"],)
             t.channel_timeout = 5
             t.auth_timeout = 5
             t.banner_timeout = 5
@@ -604,6 +677,8 @@ def execute(tpl, dev, role=None, banner=None, probe_cfg=None):
     out["outcome"] = ex.outcome
     out["error"] = repr(ex.error) if ex.error is not None else None
     out["hung"] = hung
+    if "p" in hold:
+        out["compression"] = (hold["p"].tc.local_compression, hold["p"].ts.local_compression)
     x = hold.get("x")
     out["x"] = x
     excs = []
@@ -676,6 +751,9 @@ def probe_templates(tpls):
         if o["outcome"] != "ok" or not o["completed"] or judge("probe", t["role"], o):
             raise RuntimeError("C38 harness: honest session failed for %r: %r %r %r" % (
                 k, o["outcome"], o["error"], [(a, repr(e)) for a, e in o["excs"]]))
+        want = t["cfg"].get("compress") or "none"
+        if o["compression"] != (want, want):
+            raise RuntimeError("C38 harness: configuration %r negotiated compression %r" % (k, o["compression"]))
         seen_cfg[k] = o["x"].seen
     for t in tpls:
         if t["mode"] != "replace":
@@ -692,15 +770,18 @@ def probe_templates(tpls):
 def cases(tier, tpls):
     out = []
     for t in tpls:
-        devs = CF.deviations(t["spec"], quick_types=QUICK_TYPES, all_types=(tier == "thorough"))
-        if t["mode"] == "inject" or t.get("build") is not None:
-            devs = [("as-built",)] + devs      # the hand-built (well-formed but unsolicited) message itself
+        if t.get("devs") == "z":
+            devs = list(CF.Z_DEVS)
+        else:
+            devs = CF.deviations(t["spec"], quick_types=QUICK_TYPES, all_types=(tier == "thorough"))
+            if t["mode"] == "inject" or t.get("build") is not None:
+                devs = [("as-built",)] + devs      # the hand-built (well-formed but unsolicited) message itself
         for d in devs:
             out.append(("msg", t["id"], list(d)))
         if t["id"] in QUICK_SWEEPS and tier == "quick":
             for pt in range(256):
                 out.append(("msg", t["id"], ["ptype-empty", pt]))
-        elif tier == "thorough" and (t.get("sweep") or t["mode"] == "replace"):
+        elif tier == "thorough" and (t.get("sweep") or t["mode"] == "replace") and t.get("devs") != "z":
             for pt in range(256):
                 out.append(("msg", t["id"], ["ptype-empty", pt]))
     for role in (C, S):
